@@ -12,8 +12,11 @@ import (
 
 // C10: Sample.Quantile / Sample.IQR. One case = one Sample and a list of q.
 type c10Case struct {
-	Xs     []F64 `json:"xs"`
+	Xs     []F64 `json:"xs,omitempty"`
 	Ws     []F64 `json:"ws,omitempty"`
+	// weighted samples are stored as (value, weight) pairs, so that the generic shrinker
+	// deletes a value together with its weight
+	Ps     [][2]F64 `json:"ps,omitempty"`
 	HasW   bool  `json:"hasw,omitempty"`
 	Sorted bool  `json:"sorted,omitempty"`
 	Qs     []F64 `json:"qs"`
@@ -44,6 +47,15 @@ func c10Run(raw []byte) (*Line, error) {
 	var c c10Case
 	if err := json.Unmarshal(raw, &c); err != nil {
 		return nil, err
+	}
+	if c.HasW && len(c.Ps) > 0 {
+		if len(c.Xs) != 0 || len(c.Ws) != 0 {
+			return nil, fmt.Errorf("both ps and xs/ws given")
+		}
+		for _, p := range c.Ps {
+			c.Xs = append(c.Xs, p[0])
+			c.Ws = append(c.Ws, p[1])
+		}
 	}
 	xs := fromF64s(c.Xs)
 	var ws []float64
@@ -168,6 +180,14 @@ func c10Perms(xs []float64, emit func([]float64)) {
 	rec(0)
 }
 
+func c10Pairs(xs, ws []float64) [][2]F64 {
+	ps := make([][2]F64, len(xs))
+	for i := range xs {
+		ps[i] = [2]F64{F64(xs[i]), F64(ws[i])}
+	}
+	return ps
+}
+
 func c10Weights(rng *rand.Rand, n int) []float64 {
 	ws := make([]float64, n)
 	kind := rng.Intn(4)
@@ -281,7 +301,7 @@ func c10Gen(tier string, rng *rand.Rand, emit func(interface{})) {
 		xs := c10Values(rng, n)
 		ws := c10Weights(rng, n)
 		qs := c10WQs(rng, xs, ws)
-		emit(c10Case{Xs: toF64s(xs), Ws: toF64s(ws), HasW: true, Qs: toF64s(qs)})
+		emit(c10Case{Ps: c10Pairs(xs, ws), HasW: true, Qs: toF64s(qs)})
 		// ascending + Sorted (pairs kept together)
 		idx := make([]int, n)
 		for i := range idx {
@@ -292,7 +312,7 @@ func c10Gen(tier string, rng *rand.Rand, emit func(interface{})) {
 		for i, j := range idx {
 			ax[i], aw[i] = xs[j], ws[j]
 		}
-		emit(c10Case{Xs: toF64s(ax), Ws: toF64s(aw), HasW: true, Sorted: true, Qs: toF64s(qs)})
+		emit(c10Case{Ps: c10Pairs(ax, aw), HasW: true, Sorted: true, Qs: toF64s(qs)})
 	}
 	// (d) degenerate / malformed: empty, single, all equal, all-zero weights, empty weighted
 	dq := toF64s([]float64{-1, 0, 1e-9, 0.25, 0.5, 0.75, 1, 2})
